@@ -1,10 +1,49 @@
-(* C13 — every request is answered with its own reply, in issue order.  Statements only. *)
-From MPD Require Import Bytes Tables LoopModel LoopProofs.
+(* C13 — command lists are framed as one batch and typed replies pair positionally.  Statements only. *)
+From Coq Require Import Arith.
+From MPD Require Import Bytes Tables BuilderModel CommandModel CommandProofs LoopModel CallerModel CallerProofs.
 Open Scope N_scope.
 
-Theorem c13_placeholder : forall wf p i p' outs bs,
-  cstep wf p i = (p', outs) -> In (OWrite bs) outs ->
-  bs = idle_line \/ bs = noidle_line \/
-  (exists q, (p = PCancel q \/ i = InCmd (Some q)) /\ bs = q_bytes q).
-Proof. exact cstep_writes. Qed.
-Print Assumptions c13_placeholder.
+(* framing: N <> 1 commands are one command_list_ok_begin .. command_list_end block holding the N
+   lines in order; one command is that bare line (for every list of LF-free commands, C07) *)
+Theorem c13_framing_list : forall cmds,
+  Forall no_lf cmds -> length cmds <> 1%nat ->
+  lines (render_list cmds) = [b "command_list_ok_begin"] ++ cmds ++ [b "command_list_end"].
+Proof. exact lines_render_list. Qed.
+
+Theorem c13_framing_single : forall c, no_lf c -> lines (render_list [c]) = [c].
+Proof. exact lines_render_single. Qed.
+
+(* an empty typed list writes nothing and yields the empty result *)
+Theorem c13_empty : typed_list_start [] = LSNothing /\ vec_responses [] [] = TROk [].
+Proof. exact empty_list_sends_nothing. Qed.
+
+(* Vec: the i-th typed value is decoded by the i-th command from the i-th frame *)
+Theorem c13_vec_pairing : forall cmds frames l,
+  vec_responses cmds frames = TROk l ->
+  length frames = length cmds /\ length l = length cmds /\
+  forall i c, nth_error cmds i = Some c ->
+    exists f v, nth_error frames i = Some f /\ nth_error l i = Some v /\ any_response c f = Some v.
+Proof. exact vec_pairing. Qed.
+
+(* tuples: the index lists of every impl_command_list_tuple! invocation (regenerated from the
+   source) are 0..n-1 in order, hence every arity decodes positionally like the vector *)
+Theorem c13_tuple_indices : tuple_impls = map (fun n => seq 0 n) [1; 2; 3; 4; 5; 6; 7; 8]%nat.
+Proof. exact tuple_impls_are_identity. Qed.
+
+Theorem c13_tuple_pairing : forall cmds frames,
+  (1 <= length cmds <= 8)%nat ->
+  tuple_responses cmds frames =
+  match zip_decode cmds frames with Some l => TROk l | None => TRErr CRTyped end.
+Proof. exact tuple_is_positional. Qed.
+
+Example c13_ex :
+  let f := fun n => mkFrame [(b "updating_db", render_dec n)] None in
+  tuple_responses [AUpd (b "a"); AStop; AResc (b "c")] [f 7; empty_frame; f 9] = TROk [Some 7; None; Some 9] /\
+  vec_responses [AUpd (b "a"); AResc (b "c")] [f 7] = TRErr CRTyped.
+Proof. split; vm_compute; reflexivity. Qed.
+
+Print Assumptions c13_framing_list.
+Print Assumptions c13_empty.
+Print Assumptions c13_vec_pairing.
+Print Assumptions c13_tuple_indices.
+Print Assumptions c13_tuple_pairing.
